@@ -35,6 +35,7 @@ PDOS = {  # com index -> (cob default, entries (index, bits))
     0x1800: (0x185, [(0x2000, 4), (0x2004, 4), (0x2003, 1), (0x2001, 16)]),
     0x1801: (0x185, [(0x2002, 32)]),
     0x1802: (0x40000385, [(0x2000, 8)]),
+    0x1803: (0x18FEF105, [(0x2004, 8)]),          # 29-bit COB-ID
 }
 
 
@@ -79,10 +80,10 @@ def bounds(tier):
 SETS = [("m", "rpdo", 1, "i16", v) for v in (-32768, -1, 0x1234)] + [("m", "rpdo", 1, "u8", v) for v in (0, 255)] + \
        [("d", "tpdo", 1, "u8", v) for v in (0, 15)] + [("d", "tpdo", 1, "i8", v) for v in (-8, 7)] + \
        [("d", "tpdo", 1, "flag", v) for v in (False, True)] + [("d", "tpdo", 1, "i16", v) for v in (-32768, 0x1234)] + \
-       [("d", "tpdo", 2, "u32", v) for v in (0xDEADBEEF,)]
+       [("d", "tpdo", 2, "u32", v) for v in (0xDEADBEEF,)] + [("d", "tpdo", 4, "i8", -5)]
 EVENTS = [("set",) + s for s in SETS] + \
-         [("tx", "m", "rpdo", 1), ("tx", "d", "tpdo", 1), ("tx", "d", "tpdo", 2), ("tx", "d", "tpdo", 3)] + \
-         [("rtr", "m", "tpdo", 1), ("rtr", "m", "tpdo", 2), ("rtr", "m", "tpdo", 3)] + \
+         [("tx", "m", "rpdo", 1), ("tx", "d", "tpdo", 1), ("tx", "d", "tpdo", 2), ("tx", "d", "tpdo", 3), ("tx", "d", "tpdo", 4)] + \
+         [("rtr", "m", "tpdo", 1), ("rtr", "m", "tpdo", 2), ("rtr", "m", "tpdo", 3), ("rtr", "m", "tpdo", 4)] + \
          [("disable", "m", "tpdo", 2), ("recob", "m", "tpdo", 2, 0x186), ("recob", "d", "rpdo", 1, 0x305),
           ("resub", "m", "tpdo", 1), ("resub", "d", "rpdo", 1),
           ("foreign", 0x185, b"\xff\xee\xdd\xcc"), ("foreign", 0x7F0, b"\x01"), ("cb", "m", "tpdo", 1), ("cb", "d", "rpdo", 1)]
@@ -131,7 +132,8 @@ class RefMap:
         return v
 
 
-BASE = {("rpdo", 1): 0x1400, ("rpdo", 2): 0x1401, ("tpdo", 1): 0x1800, ("tpdo", 2): 0x1801, ("tpdo", 3): 0x1802}
+BASE = {("rpdo", 1): 0x1400, ("rpdo", 2): 0x1401, ("tpdo", 1): 0x1800, ("tpdo", 2): 0x1801, ("tpdo", 3): 0x1802,
+        ("tpdo", 4): 0x1803}
 
 
 class World:
